@@ -1729,3 +1729,139 @@ Proof.
   simpl fx_merge_distinct. rewrite andb_true_l. rewrite (bool_decide_eq_true_2 _ NDv). simpl.
   unfold new_uuid. reflexivity.
 Qed.
+
+Lemma match_all_length s xs l : match_all s xs = Done l -> length l = length xs.
+Proof.
+  revert l. induction xs as [|x xs IH]; intros l H; simpl in H.
+  - now injection H as <-.
+  - destruct (matching s x); try discriminate. simpl in H.
+    destruct (match_all s xs) as [l'| | |]; try discriminate. simpl in H. injection H as <-.
+    simpl. f_equal. now apply IH.
+Qed.
+
+Lemma h_resolve_frame s x data ps f : RepoInv s -> oracle_ok s (RResolve x data ps f) ->
+  is_done (snd (h_resolve repaired s x data ps f)) = false -> fst (h_resolve repaired s x data ps f) = s.
+Proof.
+  intros I [ND FA]. simpl in ND, FA. fold (data_fresh data) in ND, FA.
+  unfold h_resolve. destruct (repo_gate s x) as [u| | |]; auto.
+  destruct data as [|d data']; auto. set (data := d :: data') in *.
+  destruct (length ps <? 2)%nat eqn:Elen; auto.
+  destruct (match_all s ps) as [olds| | |] eqn:Em; auto.
+  destruct (resolve_prevalidated s u olds (List.map fst data)) eqn:Epre.
+  2: { change (fx_resolve_validate repaired && negb false) with true. cbv iota. auto. }
+  change (fx_resolve_validate repaired && negb true) with false. cbv iota.
+  intros Hfail. exfalso.
+  (* what the checks established *)
+  unfold resolve_prevalidated in Epre.
+  destruct (repo_by_uuid s u) as [ru|] eqn:Eru; [|discriminate].
+  destruct olds as [|p0 olds']; [discriminate|]. set (olds := p0 :: olds') in *.
+  apply andb_true_iff in Epre as [Hnames Epre].
+  destruct (repo_by_uuid s p0) as [r|] eqn:Er0; [|discriminate].
+  destruct (validate_parents s r olds) as [vs|] eqn:Ev; [|discriminate].
+  apply bool_decide_eq_true in Epre.
+  unfold repo_by_uuid in Er0. destruct (st_repo_of s !! p0) as [i|] eqn:Ei; [|discriminate].
+  destruct (inv_repo_of s I p0 i Ei) as (R & r' & v0 & n0 & HR & Hr & _).
+  rewrite Er0 in Hr. injection Hr as <-.
+  destruct (validate_parents_spec s r olds vs Ev) as [Hlen F2].
+  assert (F2' : Forall2 (fun n v => st_u2v s !! n = Some v) olds vs).
+  { eapply Forall2_impl; [exact F2|]. intros a b [H _]. exact H. }
+  assert (NDolds : NoDup olds) by (eapply u2v_preimages_nodup; eauto).
+  assert (Holds : forall o, o ∈ olds -> node_state s o i true).
+  { intros o Ho. apply elem_of_list_lookup in Ho as [k Hk].
+    destruct (Forall2_lookup_l _ _ _ _ _ F2 Hk) as (v & _ & Hu & n & Hn & Hl).
+    exists r, v, n. repeat split; auto.
+    destruct (inv_nodes s I i R r v n HR Er0 Hn) as [Hv Hro].
+    apply (inv_bij s I) in Hu. rewrite Hu in Hv. injection Hv as ->. exact Hro. }
+  assert (Hu2v : is_Some (st_u2v s !! u)).
+  { unfold repo_by_uuid in Eru. destruct (st_repo_of s !! u) as [iu|] eqn:Eiu; [|discriminate].
+    destruct (inv_repo_of s I u iu Eiu) as (_ & _ & vu & _ & _ & _ & Hvu & _). eauto. }
+  set (F0 := (data_fresh data ++ [f])%list) in *.
+  assert (A0 : absent s F0).
+  { intros g Hg. rewrite Forall_forall in FA. apply fresh_ok_parts, FA, Hg. }
+  assert (HuF : u ∉ F0).
+  { intros Hin. destruct (A0 u Hin) as [_ Hn]. destruct Hu2v. congruence. }
+  assert (OK0 : rs_ok s s u i olds [] F0).
+  { constructor; auto; simpl; try apply NoDup_nil_2. intros o e H. inversion H. }
+  destruct (rs_data_step s u i olds data s [] [f] HuF ND) as (ext & Eext & OK1); auto.
+  { exists (r_data ru). unfold data_of. rewrite Eru. auto. }
+  destruct (resolve_data repaired s u olds [] data) as [s1 oext]. simpl in Eext, OK1. subst oext.
+  destruct OK1 as [I1 A1 D1 O1 E1 S1 S2].
+  change (List.map (fun o => match extension_of ext o with Some e => e | None => o end) olds)
+    with (List.map (ext_pick ext) olds) in Hfail.
+  assert (NDnews : NoDup (List.map (ext_pick ext) olds)).
+  { apply ext_pick_nodup; auto. intros o e H. now destruct (E1 o e H) as (_ & ? & _). }
+  destruct (rs_commit_step i ext olds s1 I1 NDnews O1) as (s2 & Ec & I2 & N2 & _).
+  { intros o e _ Hx. apply extension_of_in in Hx. now destruct (E1 o e Hx). }
+  rewrite Ec in Hfail.
+  assert (Hl2 : (2 <= length (List.map (ext_pick ext) olds))%nat).
+  { rewrite map_length. apply match_all_length in Em. apply Nat.ltb_ge in Elen. lia. }
+  rewrite (merge_succeeds s2 i _ f I2 Hl2 NDnews N2) in Hfail. discriminate.
+Qed.
+
+(* ------------------------------------------------------------------ the error frame *)
+
+Lemma new_data_frame s u n : is_done (snd (do_new_data s u n)) = false -> frame (fst (do_new_data s u n)) = frame s.
+Proof.
+  unfold do_new_data. destruct (st_repo_of (bump_instance_id s) !! u) as [i|]; auto.
+  destruct (st_repos (bump_instance_id s) !! i) as [r|]; auto.
+  destruct (in_list n (r_data r)); auto. simpl. discriminate.
+Qed.
+
+Lemma rename_data_frame s u o n p : is_done (snd (do_rename_data s u o n p)) = false -> fst (do_rename_data s u o n p) = s.
+Proof.
+  unfold do_rename_data. destruct (st_repo_of s !! u) as [i|]; auto.
+  destruct (st_repos s !! i) as [r|]; auto.
+  repeat (match goal with |- context [if ?b then _ else _] => destruct b end; auto). simpl. discriminate.
+Qed.
+
+Lemma delete_data_frame s u n p : is_done (snd (do_delete_data s u n p)) = false -> fst (do_delete_data s u n p) = s.
+Proof.
+  unfold do_delete_data. destruct (st_repo_of s !! u) as [i|]; auto.
+  destruct (st_repos s !! i) as [r|]; auto.
+  repeat (match goal with |- context [if ?b then _ else _] => destruct b end; auto). simpl. discriminate.
+Qed.
+
+Theorem error_frame s r : RepoInv s -> oracle_ok s r ->
+  is_done (snd (step repaired s r)) = false -> frame (fst (step repaired s r)) = frame s.
+Proof.
+  intros I O. destruct r; simpl.
+  - intros H. now rewrite new_repo_frame.
+  - intros H. now rewrite h_commit_frame.
+  - intros H. now rewrite h_new_version_frame.
+  - intros H. now rewrite h_branch_frame.
+  - intros H. now rewrite h_tag_frame.
+  - intros H. now rewrite h_merge_frame.
+  - intros H. now rewrite h_resolve_frame.
+  - reflexivity.
+  - reflexivity.
+  - reflexivity.
+  - unfold h_new_data. destruct (repo_gate s u); auto.
+    destruct (locked_uuid s a) as [[|]| | |]; auto. destruct (negb type_ok); auto. apply new_data_frame.
+  - unfold h_rpc. destruct (matching s u); auto. intros H. now rewrite rename_data_frame.
+  - unfold h_rpc. destruct (matching s u); auto. intros H. now rewrite delete_data_frame.
+  - unfold h_rpc. destruct (matching s u); auto. intros H. now rewrite delete_repo_frame.
+Qed.
+
+(* no request of a reachable state makes the server code panic or loop, except addressing a
+   branch head through ":branch" when no repo exists (recorded in the notes) *)
+
+(* ------------------------------------------------------------------ what RepoInv means *)
+
+(* the parent relation inside one repo, and its transitive closure *)
+Definition parent_of (r : repo) (p v : N) : Prop := exists n, r_nodes r !! v = Some n /\ p ∈ n_parents n.
+
+Lemma wf_acyclic r : repo_wf r -> forall v, ~ tc (parent_of r) v v.
+Proof.
+  intros W. assert (H : forall a b, tc (parent_of r) a b -> (a < b)%N).
+  { induction 1 as [a b (n & Hn & Hp)|a b c (n & Hn & Hp) _ IH].
+    - now destruct (wf_parents r W b n a Hn Hp).
+    - destruct (wf_parents r W b n a Hn Hp). lia. }
+  intros v Hv. apply H in Hv. lia.
+Qed.
+
+(* the nodes of a named branch, listed from its first node to its head *)
+Definition is_chain (r : repo) (b : string) (l : list N) : Prop :=
+  NoDup l /\
+  (forall v, v ∈ l <-> exists n, r_nodes r !! v = Some n /\ n_branch n = b) /\
+  (forall k v w, l !! k = Some v -> l !! S k = Some w ->
+     exists n, r_nodes r !! w = Some n /\ n_parents n = [v]).
